@@ -102,6 +102,8 @@ Definition event_eqb (a b:event) : bool :=
   | Raised c, Raised c' => String.eqb c c'
   | Noted c, Noted c' => String.eqb c c'
   | Forget, Forget => true
+  | Mix o, Mix o' => N.eqb o o'
+  | Infer o, Infer o' => N.eqb o o'
   | _, _ => false
   end.
 Fixpoint trace_eqb (a b:list event) : bool :=
